@@ -42,3 +42,86 @@ def board_games(rng, L, W, fd=False, pt=0.1, pr=0.1, pl=0.05):
         g["_meta"] = {"family": "board:" + name[-1], "L": L, "W": W, "fd": fd}
         out.append(g)
     return out
+
+
+# ------------------------------------------------------------------------------------------
+# running the generator's entry points with instrumentation that does not touch the repo
+# ------------------------------------------------------------------------------------------
+class RandomProxy:
+    """stands in for the `random` module inside roberta_generator: records every call and
+    its result; optionally overrides `random()` results (API-boundary witnesses)."""
+
+    def __init__(self, real, log, force_random=None):
+        self._real, self._log, self._force = real, log, force_random
+
+    def seed(self, *a, **k):
+        self._log.append(("seed", a[0] if a else None))
+        return self._real.seed(*a, **k)
+
+    def random(self):
+        r = self._real.random()
+        if self._force is not None:
+            r = self._force(len([1 for e in self._log if e[0] == "random"]), r)
+        self._log.append(("random", r))
+        return r
+
+    def choices(self, *a, **k):
+        r = self._real.choices(*a, **k)
+        self._log.append(("choices", list(r)))
+        return r
+
+    def randrange(self, *a, **k):
+        r = self._real.randrange(*a, **k)
+        self._log.append(("randrange", r))
+        return r
+
+    def __getattr__(self, name):
+        return getattr(self._real, name)
+
+
+def run_generator(argv=None, call=None, force_random=None):
+    """Run roberta_generator.main() with `argv` (or `call(rg)`) in a scratch cwd containing an
+    empty inputs/ directory.  Returns dict(outcome, files {name: text}, log [effects])."""
+    import builtins
+    import random as real_random
+    import sys
+    rg = repo("roberta_generator")
+    d = tempfile.mkdtemp(prefix="crv_")
+    os.mkdir(os.path.join(d, "inputs"))
+    log = []
+    old_cwd, old_argv = os.getcwd(), sys.argv
+
+    def rec_open(path, mode="r", *a, **k):
+        if "w" in mode or "a" in mode:
+            log.append(("open", str(path), mode))
+        return builtins.open(path, mode, *a, **k)
+    out = {"outcome": "ok"}
+    try:
+        os.chdir(d)
+        rg.random = RandomProxy(real_random, log, force_random)
+        rg.open = rec_open
+        if argv is not None:
+            sys.argv = ["roberta_generator.py"] + [str(x) for x in argv]
+        try:
+            with quiet():
+                out["ret"] = call(rg) if call else rg.main()
+        except SystemExit as e:
+            out["outcome"] = f"SystemExit:{e.code}"
+        except Exception as e:  # noqa
+            out["outcome"] = type(e).__name__
+            out["msg"] = str(e)[:200]
+        files = {}
+        for root, _, fs in os.walk(d):
+            for f in fs:
+                p = os.path.join(root, f)
+                files[os.path.relpath(p, d)] = open(p).read()
+        out["files"] = files
+    finally:
+        os.chdir(old_cwd)
+        sys.argv = old_argv
+        rg.random = real_random
+        if "open" in rg.__dict__:
+            del rg.__dict__["open"]
+        shutil.rmtree(d, ignore_errors=True)
+    out["log"] = log
+    return out
